@@ -1,42 +1,2 @@
-(* GENERATED by tools/gen/g_murmur.py from util/murmur_hash.cc/.hh and the hashing call sites -- do not edit *)
-From Coq Require Import List ZArith.
-Import ListNotations.
-Local Open Scope Z_scope.
-
-Definition murmur_m : Z := 14313749767032793493.   (* 0xc6a4a7935bd1e995 *)
-Definition murmur_r : Z := 47.
-Definition murmur_block : Z := 8.   (* len / 8 blocks of uint64_t *)
-Definition murmur_tail_mask : Z := 7.   (* switch (len & 7) *)
-(* tail switch in source order: (case label, index into data2, left shift) *)
-Definition murmur_tail_cases : list (Z * nat * Z) :=
-  [(7, 6%nat, 48); (6, 5%nat, 40); (5, 4%nat, 32); (4, 3%nat, 24); (3, 2%nat, 16); (2, 1%nat, 8); (1, 0%nat, 0)].
-Definition murmur_tail_mul_case : Z := 1.   (* the case that carries h *= m *)
-Definition native_64b_pointer_size : Z := 4.   (* MurmurHashNative = 64A unless the pointer size is this *)
-Definition m64b_m : Z := 1540483477.
-Definition m64b_r : Z := 24.
-Definition m64b_h2_init : Z := 0.
-Definition m64b_loop_min : Z := 8.
-Definition m64b_loop_dec1 : Z := 4.
-Definition m64b_loop_dec2 : Z := 4.
-Definition m64b_half_min : Z := 4.
-Definition m64b_half_dec : Z := 4.
-Definition m64b_tail_sh2 : Z := 16.
-Definition m64b_tail_sh1 : Z := 8.
-Definition m64b_fin1 : Z := 18.
-Definition m64b_fin2 : Z := 22.
-Definition m64b_fin3 : Z := 17.
-Definition m64b_fin4 : Z := 19.
-Definition m64b_join_shift : Z := 32.
-Definition default_seed_64a : Z := 0.
-Definition default_seed_native : Z := 0.
-Definition shard_seed : Z := 47849374332489.   (* HashCallback default, fields.hh *)
-Definition dedupe_line_seed : Z := 1.
-Definition dedupe_field_seed : Z := 1.
-Definition cache_seed : Z := 0.
-Definition subtract_insert_seed : Z := 1.
-Definition subtract_lookup_seed : Z := 1.
-Definition commoncrawl_dedupe_seed : Z := 1.
-Definition mmhsum_buffer : Z := 1048576.
-Definition mmhsum_seed : Z := 0.
-Definition order_independent_init : Z := 0.
-(* LITERALS: 0,0,0,0,0,0,0,0,0,1,1,1,1,1,1,1,1,1,2,2,2,2,3,3,3,4,4,4,4,4,4,4,5,5,6,6,7,7,8,8,8,8,16,16,17,18,19,22,24,24,32,32,40,47,48,64,1540483477,47849374332489,14313749767032793493 *)
+(* translator failed: expected two MurmurHashNative(line, seed) call sites in subtract_lines_main.cc, found 1 (and the numeric literals of the anchored code changed: constants cannot be kept) *)
+Definition translator_failed : True := 0.
